@@ -1,3 +1,69 @@
-import Chiritori.Spec.Holds
+import Chiritori.Props.C02
+/-
+  C15 — list reports exactly what clean deletes, and changes nothing.
+
+  * `list_regions`: the items of `list` are built from the very marker list `remove` deletes (one item per
+    marker, all flagged Ready).
+  * `regions_spec`: those regions are sorted, disjoint and cover exactly the ready extents (one per
+    default-strategy element, two per unwrapped element, nested regions absorbed) - C02/C03's coverage theorem.
+  * `removed_text`: the source minus the listed regions is the text before whitespace tidying.
+  * `line_numbers`: the reported line numbers are 1 + the number of line breaks at or before the first /
+    last byte of the region.
+  * purity: `list` is a function of source and configuration (it is one in the model by construction;
+    in Rust it takes an `Rc<String>` and returns a `String`).
+  Not yet proved: that the highlighted text of an item equals the text of its region (`buildItem` internals).
+-/
 namespace Chiritori.Props.C15
+open Chiritori Chiritori.Spec
+
+theorem list_regions (src ds de : List Char) (cfg : Cfg) :
+    listMarkers src ds de cfg = (buildRemoveMarker cfg (bytesOf src) (parseSource src ds de)).map fun m => (m, true) := rfl
+
+theorem regions_spec (src ds de : List Char) (cfg : Cfg) (hde : de ≠ []) :
+    MSorted (buildRemoveMarker cfg (bytesOf src) (parseSource src ds de)) 0 (blen src) ∧
+    ∀ i, mcov (buildRemoveMarker cfg (bytesOf src) (parseSource src ds de)) i ↔
+      inAny (extentsOfSource src ds de cfg) i = true :=
+  buildRemoveMarker_spec src ds de cfg hde
+
+theorem removed_text (src ds de : List Char) (cfg : Cfg) (hde : de ≠ []) (removed : Bytes)
+    (h : removeMarkers (bytesOf src) ((listMarkers src ds de cfg).map (·.1)) = .ok removed) :
+    removed = minusRanges (bytesOf src) (((listMarkers src ds de cfg).map (·.1)).map fun m => (m.start, m.stop)) := by
+  have e : (listMarkers src ds de cfg).map (·.1) = buildRemoveMarker cfg (bytesOf src) (parseSource src ds de) := by
+    rw [list_regions, List.map_map]
+    exact List.map_id _
+  rw [e] at h ⊢
+  exact removeMarkers_eq _ _ 0 (blen src) (regions_spec src ds de cfg hde).1 removed h
+
+/-- `find_line` on a sorted table: one more than the number of breaks at or before the needle -/
+theorem findLine_spec (lm : List Nat) (hs : lm.Pairwise (· < ·)) (x : Nat) :
+    findLine lm x = 1 + (lm.filter fun p => decide (p ≤ x)).length := by
+  unfold findLine
+  induction lm with
+  | nil => simp
+  | cons a rest ih =>
+    simp only [List.pairwise_cons] at hs
+    by_cases ha : a > x
+    · have hall : (rest.filter fun p => decide (p ≤ x)) = [] := by
+        rw [List.filter_eq_nil_iff]
+        intro p hp
+        have := hs.1 p hp
+        simp; omega
+      simp [List.findIdx?_cons, ha, hall]
+    · have hle : a ≤ x := by omega
+      have ih' := ih hs.2
+      simp only [List.findIdx?_cons, ha, decide_false, Bool.false_eq_true, ite_false, List.filter_cons, hle,
+        decide_true, ite_true, List.length_cons]
+      cases hf : rest.findIdx? (fun v => decide (v > x)) with
+      | none => rw [hf] at ih'; simp at ih' ⊢; omega
+      | some i => rw [hf] at ih'; simp at ih' ⊢; omega
+
+theorem line_numbers (b : Bytes) (start stop : Nat) (h : 0 < stop) :
+    getLineRange (lineBreaks b) start stop =
+      .ok (1 + ((lineBreaks b).filter fun p => decide (p ≤ start)).length,
+           1 + ((lineBreaks b).filter fun p => decide (p ≤ stop - 1)).length) := by
+  unfold getLineRange subU
+  rw [if_pos (by omega)]
+  simp only [bind, Except.bind, pure, Except.pure]
+  rw [findLine_spec _ (lineBreaks_sorted b), findLine_spec _ (lineBreaks_sorted b)]
+
 end Chiritori.Props.C15
